@@ -74,6 +74,13 @@ Theorem C14_heap_map_once_each : forall sel f tagf l h i acc h' res,
   map_loop sel f tagf h l i acc = (h', res) -> length res = (length acc + length (filter sel l))%nat.
 Proof. exact map_loop_length. Qed.
 
+
+Theorem C14_heap_typed_views : forall (fadd fmul fdiv : Z -> Z -> Z) (of_int : Z -> Z) s k r id l, reg_list s r = Some (id, l) ->
+  xstep_core fadd fmul fdiv of_int s (XLSliceK k r) = (s, XRet (XO (OVs (filter (sel_kind k) l)))) /\
+  xstep_core fadd fmul fdiv of_int s (XLForEachK k r) = (s, XRet (XO (OVs (filter (sel_kind k) l)))) /\
+  xstep_core fadd fmul fdiv of_int s (XLAll k r) = (s, XRet (XO (OB (forallb (sel_kind k) l)))).
+Proof. exact xslicek_step. Qed.
+
 Print Assumptions C14_slice.
 Print Assumptions C14_foreach_log.
 Print Assumptions C14_positions.
@@ -99,3 +106,4 @@ Print Assumptions C14_heap_all_numeric.
 Print Assumptions C14_heap_filter.
 Print Assumptions C14_heap_map_identity.
 Print Assumptions C14_heap_map_once_each.
+Print Assumptions C14_heap_typed_views.
